@@ -313,6 +313,30 @@ func globalElemType(g *ssa.Global) types.Type { return g.Type().(*types.Pointer)
 // syntactically independent of writes to another).
 var globRefIDs = map[string]uint64{}
 
+// Function values stored in memory: each stored closure / function value gets a fixed non-nil
+// address of its own; the registry maps the address back to the function and its bindings so that a
+// later call through the loaded value executes (or applies the contract of) that very function.
+var closureTab = map[uint64]*FuncV{}
+var closureByFn = map[*FuncV]uint64{}
+
+func closureRef(fv *FuncV) *Term {
+	if id, ok := closureByFn[fv]; ok {
+		return BVU(id, 64)
+	}
+	id := 0x5000000000000000 + uint64(len(closureTab)+1)<<16
+	closureTab[id] = fv
+	closureByFn[fv] = id
+	return BVU(id, 64)
+}
+
+// closureOf resolves a function-valued term to the registered function, if it is one.
+func closureOf(t *Term) *FuncV {
+	if t != nil && t.IsConst() && t.Sort.Kind == SBV && t.Sort.Width == 64 && t.Val.IsUint64() {
+		return closureTab[t.Val.Uint64()]
+	}
+	return nil
+}
+
 func globalRef(g *ssa.Global) *Term {
 	k := globKey(g)
 	id, ok := globRefIDs[k]
@@ -446,7 +470,19 @@ func (e *Engine) importContents(st, is *State, v Value, t types.Type) {
 }
 
 func isGround(t *Term) bool {
-	return t.IsConst() || t == True || t == False
+	if t.IsConst() || t == True || t == False {
+		return true
+	}
+	// constant arrays (the characters of a string literal): store chains over a constant array
+	if t.Op == "store" || t.Op == "constarr" {
+		for _, a := range t.Args {
+			if !isGround(a) {
+				return false
+			}
+		}
+		return true
+	}
+	return false
 }
 
 func (e *Engine) storeGlobal(st *State, g *ssa.Global, v Value) {
